@@ -46,22 +46,22 @@ theorem rootOK_inv {root : SolNode} {ctx0 : Mat} (h : RootOK root ctx0) :
   sgn := fun q hq _ => by rw [h.arts]; exact signAt_root h.sign h.wf hq.1
   int := fun q _ => root_intinv h.wf h.den_one h.fresh
 
-/-- **point soundness of the modelled solver**, over the parameter columns -/
-theorem solve_sound {cc : Mat → Option Bool} (hcc : CCContract cc) (ctl : Ctl)
+/-- **point soundness of the solver as it was before the repair of KF-C07-12**, over the parameter columns -/
+theorem solveAsWritten_sound {cc : Mat → Option Bool} (hcc : CCContract cc) (ctl : Ctl)
     {cfc : Bool} {fuel : Nat} {root : SolNode} {ctx0 : Mat} (h : RootOK root ctx0) {r : Option CTree}
-    (hs : solve cc ctl cfc fuel root ctx0 = .done r) {q : List Int} (hq : ParamVec root.tab.nt q)
+    (hs : solveAsWritten cc ctl cfc fuel root ctx0 = .done r) {q : List Int} (hq : ParamVec root.tab.nt q)
     (hsat : CtxSat ctx0 q) {x : List Int} (hx : evalRes r q = some x) : IsLexMin root q x := by
-  have := solveGo_sound hcc ctl stepFacts cfc fuel true root ctx0 r _ _ hs (fun _ => rootOK_inv h) q ⟨hq, hsat⟩ x hx
+  have := solveGoAsWritten_sound hcc ctl stepFacts cfc fuel true root ctx0 r _ _ hs (fun _ => rootOK_inv h) q ⟨hq, hsat⟩ x hx
   rw [h.arts] at this
   exact this
 
 /-- … and through the public tree semantics `Tree.eval` -/
-theorem solve_sound_eval {cc : Mat → Option Bool} (hcc : CCContract cc) (ctl : Ctl)
+theorem solveAsWritten_sound_eval {cc : Mat → Option Bool} (hcc : CCContract cc) (ctl : Ctl)
     {cfc : Bool} {fuel : Nat} {root : SolNode} {ctx0 : Mat} (h : RootOK root ctx0) {r : Option CTree}
-    (hs : solve cc ctl cfc fuel root ctx0 = .done r) {θ : List Int} (hlen : θ.length + 1 = root.tab.nt)
+    (hs : solveAsWritten cc ctl cfc fuel root ctx0 = .done r) {θ : List Int} (hlen : θ.length + 1 = root.tab.nt)
     (hnn : ∀ a ∈ θ, 0 ≤ a) (hsat : CtxSat ctx0 (1 :: θ)) {x : List Int}
     (hx : (resToTree r).eval θ = .point x) : IsLexMin root (1 :: θ) x := by
-  refine solve_sound hcc ctl h hs ⟨by simp [hlen], rfl, ?_⟩ hsat (resToTree_eval_point r θ x hx)
+  refine solveAsWritten_sound hcc ctl h hs ⟨by simp [hlen], rfl, ?_⟩ hsat (resToTree_eval_point r θ x hx)
   intro a ha
   rcases List.mem_cons.mp ha with rfl | ha
   · decide
